@@ -244,13 +244,15 @@ theorem fileIsDeleted_is_oci_cover (fp w : String) (hw : isWhiteout w = true)
 theorem resolver_keeps_packages_without_filepath (w : String) : fileIsDeleted "" w = false :=
   fileIsDeleted_nofp w
 
-/-- `index_eq_flatten_partial`: for ALL scanners and ALL layer stacks satisfying the decidable
-    predicate `Tame` (Proofs/LayerFS.lean: no duplicate digests; a path once per layer; at most one
-    whiteout per layer; no opaque marker at the root of a layer; package files
-    hidden by whiteouts only; OS databases never hidden and never empty; no package file
-    overwritten with another package; one path per language package id; OS and language ids
-    apart) indexing succeeds and the finished report lists package `id` with package database
-    `db` exactly when the scanners find it on the flattened image. -/
+/-- `index_eq_flatten_partial`: for ALL scanners (any number of OS package databases under
+    linux.Coalescer or rhel.Coalescer, any number of file ecosystems under the python|java|ruby|nodejs
+    coalescers or under gobin's) and ALL layer stacks satisfying the decidable predicate `Tame`
+    (Proofs/LayerFS.lean: layers with one digest have the same entries — duplicate layers are allowed —;
+    a path once per layer; at most one whiteout per layer; no opaque marker at the root of a layer;
+    package files hidden by whiteouts only; OS databases never hidden and never empty; no package file
+    overwritten with other packages; one path and database per file package id; OS, and the different file
+    ecosystems', ids apart; `go:` databases for Go executables) indexing succeeds and the finished report
+    lists package `id` with package database `db` exactly when the scanners find it on the flattened image. -/
 theorem index_eq_flatten_partial (S : Scanners) (layers : List FSLayer) (ht : Tame S layers) :
     ∃ r, indexModel S layers = some r ∧ ∀ id db, reportHas r id db = imageHas S layers id db := by
   obtain ⟨r, hr, h⟩ := index_eq_flatten ht
@@ -261,14 +263,17 @@ theorem index_eq_flatten_partial (S : Scanners) (layers : List FSLayer) (ht : Ta
 
 set_option maxRecDepth 10000 in
 /-- The hypothesis is satisfiable on a non-trivial history: install (OS database, python and
-    nodejs packages), upgrade with the old files whited out, removal, an unrelated file. -/
+    nodejs packages, a Go executable), upgrade with the old files whited out, removal, the executable
+    moved and rebuilt, an unrelated file, a layer applied a second time. -/
 theorem tame_example : Tame Ex.S0 Ex.tameStack := by decide
 
 set_option maxRecDepth 10000 in
 example : imageHas Ex.S0 Ex.tameStack "requests-2" "lang:site/requests-2.dist-info/METADATA" = true ∧
     imageHas Ex.S0 Ex.tameStack "requests-1" "lang:site/requests-1.dist-info/METADATA" = false ∧
     imageHas Ex.S0 Ex.tameStack "curl-7" Ex.dpkgDB = true ∧
-    imageHas Ex.S0 Ex.tameStack "left-pad-1" "lang:app/node_modules/left-pad/package.json" = false := by decide
+    imageHas Ex.S0 Ex.tameStack "left-pad-1" "lang:app/node_modules/left-pad/package.json" = false ∧
+    imageHas Ex.S0 Ex.tameStack "dep-1b" "go:usr/local/bin/app" = true ∧
+    imageHas Ex.S0 Ex.tameStack "dep-1" "go:usr/bin/app" = false := by decide
 
 set_option maxRecDepth 10000 in
 /-- … and with the OS database under the rhel coalescer. -/
@@ -320,5 +325,53 @@ set_option maxRecDepth 10000 in
     without any whiteout; the resolver only looks at whiteouts. -/
 theorem index_eq_flatten_dir_replaced_counterexample :
     Ex.reportedNotInImage Ex.S0 Ex.dirReplaced "requests-1" "lang:a/x" := by decide
+
+set_option maxRecDepth 10000 in
+/-- clause `digests`: two different layers under one digest — `layerSorter` keys layers by digest, so the
+    whiteout of the second is not "after" the package of the first. -/
+theorem index_eq_flatten_digest_collision_counterexample :
+    Ex.reportedNotInImage Ex.S0 Ex.digestCollision "requests-1" "lang:a/x" := by decide
+
+set_option maxRecDepth 10000 in
+/-- clause `paths`: a layer that lists one path twice (the flattened image holds one file per path, a scan of
+    the layer's entries sees both; pkg/tarfs — property C11 — hands the scanners one entry per path). -/
+theorem index_eq_flatten_path_twice_counterexample :
+    Ex.reportedNotInImage Ex.S0 Ex.pathTwice "requests-2" "lang:a/x" := by decide
+
+set_option maxRecDepth 10000 in
+/-- clause `noOverwrite`, Go form: an executable rebuilt in place; the old build's dependency stays reported. -/
+theorem index_eq_flatten_go_rebuilt_counterexample :
+    Ex.reportedNotInImage Ex.S0 Ex.goRebuilt "dep-1" "go:usr/bin/app" := by decide
+
+set_option maxRecDepth 10000 in
+/-- clause `onePath`, Go form (finding gobin-shared-stdlib): two executables built with one toolchain share the
+    package `stdlib`; the gobin coalescer keeps one environment per id, so one executable's goes missing. -/
+theorem index_eq_flatten_go_shared_stdlib_counterexample :
+    Ex.inImageNotReported Ex.S0 Ex.twoGoBinaries "stdlib-1.21" "go:usr/bin/app" := by decide
+
+set_option maxRecDepth 10000 in
+/-- … and when the executable whose environment survived is deleted later, the shared package vanishes from the
+    report although the other executable is still in the image. -/
+theorem index_eq_flatten_go_shared_stdlib_deleted_counterexample :
+    Ex.inImageNotReported Ex.S0 Ex.twoGoBinariesOneDeleted "stdlib-1.21" "go:usr/bin/app" := by decide
+
+set_option maxRecDepth 10000 in
+/-- clause `goDb`: the gobin coalescer drops every package whose database does not start with `go:`. -/
+theorem index_eq_flatten_go_db_prefix_counterexample :
+    Ex.inImageNotReported Ex.S0 Ex.goOddDb "odd-1" "exe:usr/bin/odd" := by decide
+
+set_option maxRecDepth 10000 in
+/-- clause `ecosApart` (finding lang-shared-id-across-ecosystems): two language ecosystems find the same
+    (name, version) — one package id — at two paths, and the python one is deleted later.  MergeSR keeps the
+    `Package` of whichever coalescer finished last and both environments; the resolver tests that package's
+    file path only.  nodejs last: the deleted python package stays reported … -/
+theorem index_eq_flatten_cross_ecosystem_id_counterexample :
+    Ex.reportedNotInImage Ex.S2 Ex.crossEco "six-1" "python:a/p" := by decide
+
+set_option maxRecDepth 10000 in
+/-- … python last: the nodejs package, still in the image, is dropped with it.  The finished report depends
+    on the order in which the coalescer goroutines finish. -/
+theorem index_eq_flatten_cross_ecosystem_id_order_counterexample :
+    Ex.inImageNotReported Ex.S2' Ex.crossEco "six-1" "nodejs:b/j" := by decide
 
 end ClairModel.Props.C01
